@@ -253,6 +253,14 @@ func failRace(mode int, seed uint64) (string, string) {
 	if mode == 2 && resets != 1 {
 		return "reset", fail("conc/failrace/reset-not-exclusive", "%s: %d ResetQuestion calls report having deleted the one state", what, resets)
 	}
+	if mode == 1 && resets > 0 {
+		// a successful reset wiped the history: whatever is stored now was
+		// recorded after it and is a FIRST generation; the renewal computed
+		// from the deleted state must not have been published over the reset
+		if h, ok := f.Lookup(q); ok && h.Streak != 1 {
+			return "stale", fail("conc/failrace/stale-generation-published", "%s: a ResetQuestion deleted the state, yet streak %d (built on the deleted state) is stored", what, h.Streak)
+		}
+	}
 	if mode == 0 {
 		if h, ok := f.Lookup(q); !ok || h.Streak != old.Streak+1 {
 			return "lost", fail("conc/failrace/state-lost", "%s: afterwards Lookup hit=%v streak=%d", what, ok, h.Streak)
